@@ -16,6 +16,7 @@ from configs import CONFIGS, cfg_defines
 CBMC_CHECKS = ['--pointer-check', '--bounds-check', '--pointer-overflow-check', '--unsigned-overflow-check',
                '--signed-overflow-check', '--conversion-check', '--div-by-zero-check', '--pointer-primitive-check', '--object-bits', '10']
 TIMEOUT = int(os.environ.get('VERIF_TIMEOUT', '300'))
+DEFAULT_SOLVER = os.environ.get('VERIF_SOLVER', 'minisat')
 MEM_KB = 12 * 1024 * 1024
 CASEPOOL = concurrent.futures.ThreadPoolExecutor(max_workers=8)
 SOLVERS = concurrent.futures.ThreadPoolExecutor(max_workers=int(os.environ.get('VERIF_JOBS', '14')))
@@ -192,8 +193,9 @@ def prove(built, fn, verbose=False, trace=False, keep=False, case=None):
         args = []
         for g in group:
             args += ['--property', g]
-        first = ['--sat-solver', 'cadical'] if sp.solver == 'cadical' else []
-        second = [] if sp.solver == 'cadical' else ['--sat-solver', 'cadical']
+        use_cadical = (sp.solver or DEFAULT_SOLVER) == 'cadical'
+        first = ['--sat-solver', 'cadical'] if use_cadical else []
+        second = [] if use_cadical else ['--sat-solver', 'cadical']
         r = run(['cbmc', gb2, '--json-ui'] + first + flags + args, tmo)
         if r[0] == -9:
             r2 = run(['cbmc', gb2, '--json-ui'] + second + flags + args, tmo)
